@@ -33,6 +33,32 @@ def judge(case):
             reduced = arrays[:j] + arrays[j + 1:]
             v2, _ = gradcheck.check(shared, reduced, list(range(len(reduced))), case["op"] + f"[operand {i} is operand {j}]", subsets=False)
             viol += v2
+    # concat / stack take a Python list: the graph holds the operands it was BUILT from - a caller who re-uses the list
+    # (reverse, clear, sliding window) between forward and backward does not redirect the gradient slices
+    if case["op"] in ("concat", "stack") and info.get("accepted") and not viol and info.get("rows") is not None and n >= 1:
+        sg = harness.load()
+        ts = [sg.Tensor(np.array(a, copy=True), requires_grad=True) for a in arrays]
+        for how in ("reverse", "clear", "replace"):
+            for t in ts: t.zero_()
+            lst = list(ts)
+            try:
+                out = getattr(sg, case["op"])(lst, case["args"]["dim"])
+                if how == "reverse": lst.reverse()
+                elif how == "clear": lst.clear()
+                else: lst[0] = sg.Tensor(np.zeros_like(arrays[0]), requires_grad=True)
+                from mc import values as _v
+                g = _v.dense_g(out.shape)
+                out.backward(sg.Tensor(np.asarray(g, dtype=out.dtype)))
+                for k, t in enumerate(ts):
+                    exp = info["rows"][k].T @ np.asarray(g, dtype=np.float64).reshape(-1)
+                    if t.grad is None or not np.allclose(np.asarray(t.grad.data, dtype=np.float64).reshape(-1), exp, rtol=1e-9, atol=1e-11):
+                        viol.append({"kind": f"{case['op']}:operand-list-mutated-after-forward", "detail": f"the list passed to {case['op']} was changed ({how}) after the "
+                                     f"forward call; operand {k} then received a gradient that is not its slice of g"}); break
+            except harness.HarnessError:
+                raise
+            except Exception as e:
+                viol.append({"kind": f"{case['op']}:operand-list-mutated-after-forward", "detail": f"list {how} after forward: backward raised {type(e).__name__}: {str(e)[:80]}"})
+            if viol: break
     nt = bool(info.get("accepted") and info.get("nonzero") and any(a.size > 1 for a in arrays))
     return {"nontrivial": nt, "outcome": "accepted" if info.get("accepted") else "rejected", "violations": viol}
 
